@@ -10,8 +10,10 @@ Generic theorems (any classification `cls`, any programs, any schedule of operat
   C04_history_irrelevant       hence any two histories followed by reset(seed) and the same later operations (even
                                interleaved with other instances) give the same trajectory
 Skeleton theorems (the four operations as the inventory describes them): see the second half of the file.
-Round 3: the F-10 repair (NMNE settings per game) is followed — C04_skeleton_isolated_partial now excludes exactly F-11, with the code's own
-`stepProg`; C04_gen_globals_safe is FULL; the seed argument is an `Option Int` (C04_reset_call_reseeds, C04_reset_any_seed_episode_fresh,
+Round 7 (RNG): the F-11 repair (decorator `own_generator_state`: operations run on the instance's own generator state) is followed —
+C04_skeleton_isolated PROVES C04_FullSkeletonIsolated, C04_gen_rng_safe PROVES C04_FullGenRngSafe, C04_skeleton_history_irrelevant is full; what
+F-11 was is kept as lemmas about the pre-repair programs (C04_shared_rng_counterexample, C04_shared_rng_skeleton_isolated_partial).
+Round 3: the F-10 repair (NMNE settings per game) is followed; C04_gen_globals_safe is FULL; the seed argument is an `Option Int` (C04_reset_call_reseeds, C04_reset_any_seed_episode_fresh,
 C04_gen_seed_handling, C04_truthy_seed_counterexample, C04_unseeded_reset_fresh_modulo_rng).
 -/
 import PrimaiteModel.Model.Isolation
